@@ -1187,7 +1187,7 @@ got_m:
         assert(m->EFQ == NULL);        // someone snuck in!
         qthread_syncvar_gotlock_fill(shep, m, dest, ret);
     } else {
-        UNLOCK_THIS_MODIFIED_SYNCVAR(dest, ret, 0);
+        UNLOCK_THIS_MODIFIED_SYNCVAR(dest, ret, e.sf);
     }
 
     return QTHREAD_SUCCESS;
